@@ -223,6 +223,31 @@ def write_replay(pid, name, data):
     return os.path.relpath(path, VERIF)
 
 
+def run_corpus(mod, ctx):
+    """regression corpus: inputs / histories that once exposed a (seeded or real) violation run first, through the
+    property module's own replay oracle"""
+    path = os.path.join(VERIF, "corpus", "%s.jsonl" % ctx.pid)
+    if not os.path.exists(path) or not hasattr(mod, "replay"):
+        return
+    n = 0
+    for line in open(path):
+        line = line.strip()
+        if not line:
+            continue
+        try:
+            entry = json.loads(line)
+            ok, msg = mod.replay(entry)
+        except Exception as e:  # noqa
+            ctx.notes.append("corpus entry not replayable: %s" % e)
+            continue
+        n += 1
+        ctx.count()
+        if not ok:
+            ctx.violation(entry.get("signature", "corpus"), entry.get("what", "corpus entry fails again") + " [corpus]",
+                          entry.get("input"), entry.get("expected"), msg[:600], replay=entry.get("replay"))
+    ctx.extra["corpus_entries_replayed"] = n
+
+
 def run_check(pid, tier, seed, level, level_text=None):
     t0 = time.time()
     log = []
@@ -255,6 +280,7 @@ def run_check(pid, tier, seed, level, level_text=None):
         ctx.violation("import", "the package does not import: " + im.error, None)
     else:
         try:
+            run_corpus(mod, ctx)
             mod.run(ctx)
             if (proof_problems or ctx.disagreements) and not ctx.violations:
                 # the tie or a proof is broken: extend the failing-input search on the real code
